@@ -496,6 +496,8 @@ class Data(Field):
             and not include_delimiter else b''
         )
 
+        self.delimiter_slot_name = None
+
         assert not (consume_delimiter == False and include_delimiter == True)
         self.consume_delimiter = consume_delimiter  #XXX document this!
         self.is_fixed = isinstance(byte_count, int)
@@ -537,6 +539,11 @@ class Data(Field):
 
             elif hasattr(self.until_marker, 'search'):
                 self.unpack = self._unpack_with_regexp_marker
+                if not self.include_delimiter:
+                    # the delimiter found depends on the data parsed: it
+                    # belongs to the packet, not to this (shared) field
+                    self.delimiter_slot_name = "_delimiter_of_%s" % self.field_name
+                    slots.append(self.delimiter_slot_name)
 
             else:
                 assert False
@@ -555,9 +562,20 @@ class Data(Field):
         )
 
     def pack(self, pkt, fragments, **k):
-        r = getattr(pkt, self.field_name) + self.delimiter_to_be_included
+        delimiter = self.delimiter_to_be_included
+        if self.delimiter_slot_name is not None:
+            delimiter = getattr(pkt, self.delimiter_slot_name, delimiter)
+
+        r = getattr(pkt, self.field_name) + delimiter
         fragments.append(r)
         return fragments
+
+    def _remember_delimiter(self, pkt, delimiter):
+        try:
+            setattr(pkt, self.delimiter_slot_name, delimiter)
+        except AttributeError:
+            # no slot in this packet (field created on the fly by a Ref)
+            self.delimiter_to_be_included = delimiter
 
     def _unpack_fixed_size(self, pkt, raw, offset=0, **k):
         byte_count = self.byte_count
@@ -646,7 +664,7 @@ class Data(Field):
                     count = match.start()
                     if self.consume_delimiter:
                         extra_count = match.end() - count
-                    self.delimiter_to_be_included = match.group()
+                    self._remember_delimiter(pkt, match.group())
             else:
                 assert False
 
